@@ -322,3 +322,56 @@ Definition np_char_codec1 (a : list name) : result (list name) := if arr1_empty 
 Definition np_char_codec2 (a : h5_2d name) : result (h5_2d name) := if arr2_empty a then Err 33 else Ok a.
 Definition np_empty_like1 (a : list name) : result (list name) := if arr1_empty a then Ok a else Err 34.
 Definition np_empty_like2 (a : h5_2d name) : result (h5_2d name) := if arr2_empty a then Ok a else Err 34.
+
+(* ==== ExperimentSpace: the constructor and the query methods ====
+   (harness/src_functions.py LS_SPACE_*, generated file Generated/SrcSpaceMethods.v, proofs Proofs/C01Source_Space*.v)
+   An ExperimentSpace OBJECT is [pyspace]: its three instance attributes as Python stores them - the two mapping TUPLES of
+   arrays (whatever their lengths: the constructor validates nothing) and the control name.  [pyspace_of] is the object
+   from_screen / load_h5 build for a model [space] (the columns of its row lists).
+   Doses are order keys (Model/Encode.v): the key of 0.0 and of -0.0 is 0, and numpy's == / setdiff1d / unique identify the two.
+   Error tags (continuing the list above): 35 a boolean mask of another length than the array it indexes (numpy IndexError),
+   36 `.item()` on an array that does not hold exactly one element (ValueError). *)
+Definition pyspace : Type := (tmap_arrays * smap_arrays * name)%type.
+Definition pysp_tmap (o : pyspace) : tmap_arrays := fst (fst o).                     (* o.treatment_mapping *)
+Definition pysp_smap (o : pyspace) : smap_arrays := snd (fst o).                     (* o.sample_mapping *)
+Definition pysp_ctrl (o : pyspace) : name := snd o.                                  (* o.control_treatment_name *)
+Definition set_pysp_tmap (o : pyspace) (v : tmap_arrays) : pyspace := (v, pysp_smap o, pysp_ctrl o).
+Definition set_pysp_smap (o : pyspace) (v : smap_arrays) : pyspace := (pysp_tmap o, v, pysp_ctrl o).
+Definition set_pysp_ctrl (o : pyspace) (v : name) : pyspace := (pysp_tmap o, pysp_smap o, v).
+(* object.__new__(ExperimentSpace): the instance before __init__ has set its attributes *)
+Definition blank_pyspace : pyspace := (([], [], []), ([], []), []).
+Definition pyspace_of (sp : space) : pyspace := (tmap_cols (sp_tmap sp), smap_cols (sp_smap sp), sp_ctrl sp).
+
+(* ---- vocabulary: one numpy call each ---- *)
+Definition arr_eq_name (a : list name) (v : name) : list bool := map (fun x => name_eqb x v) a.       (* a == v, a a str array *)
+Definition arr_eq_id (a : list Z) (v : Z) : list bool := map (fun x => x =? v) a.                    (* a == v, a an int array *)
+(* a[m], m a boolean mask: the elements where m is True, in order; IndexError (tag 35) unless m has a's length *)
+Definition arr_mask {A} (a : list A) (m : list bool) : result (list A) :=
+  if Nat.eqb (length m) (length a) then Ok (map snd (filter fst (combine m a))) else Err 35.
+(* a.item(): the only element of an array of size 1, else ValueError (tag 36) *)
+Definition arr_item {A} (a : list A) : result A := match a with [x] => Ok x | _ => Err 36 end.
+(* np.setdiff1d(a, b) on str arrays: the sorted distinct values of a that are not in b *)
+Definition setdiff1d_names (a b : list name) : list name :=
+  sort_uniq name_cmp (filter (fun x => negb (existsb (name_eqb x) b)) a).
+
+(* ---- models, over the row lists of [space] ---- *)
+(* n_unique_treatment_types: the distinct treatment names other than the control name *)
+Definition space_n_treatment_types (sp : space) : Z :=
+  Z.of_nat (length (sort_uniq name_cmp (filter (fun n => negb (name_eqb n (sp_ctrl sp))) (map (fun e => fst (fst e)) (sp_tmap sp))))).
+(* n_unique_doses: the distinct doses other than 0.0 *)
+Definition space_n_doses (sp : space) : Z :=
+  Z.of_nat (length (sort_uniq Z.compare (filter (fun d => negb (d =? 0)) (map (fun e => snd (fst e)) (sp_tmap sp))))).
+(* the mapping rows of one treatment name *)
+Definition space_rows_named (sp : space) (nm : name) : tmapping := filter (fun e => name_eqb (fst (fst e)) nm) (sp_tmap sp).
+(* doses_for_treatment: that name's distinct non-zero doses, ascending *)
+Definition space_doses_for_treatment (sp : space) (nm : name) : list Z :=
+  sort_uniq Z.compare (filter (fun d => negb (d =? 0)) (map (fun e => snd (fst e)) (space_rows_named sp nm))).
+(* treatment_ids_from_treatment_name: that name's distinct ids (the sentinel included, when a row of the name is a control), ascending *)
+Definition space_treatment_ids_of_name (sp : space) (nm : name) : list Z :=
+  sort_uniq Z.compare (map snd (space_rows_named sp nm)).
+(* sample_id_from_sample_name / sample_name_from_sample_id: the id / name of the ONLY mapping row with that name / id; no row or
+   several rows: `.item()` raises (tag 36) *)
+Definition space_sample_id (sp : space) (nm : name) : result Z :=
+  match filter (fun e => name_eqb (fst e) nm) (sp_smap sp) with [e] => Ok (snd e) | _ => Err 36 end.
+Definition space_sample_name (sp : space) (i : Z) : result name :=
+  match filter (fun e => snd e =? i) (sp_smap sp) with [e] => Ok (fst e) | _ => Err 36 end.
